@@ -2,6 +2,7 @@ package props
 
 import (
 	"fmt"
+	"strings"
 	"math/big"
 	"sort"
 	"testing"
@@ -10,6 +11,7 @@ import (
 	banktypes "github.com/cosmos/cosmos-sdk/x/bank/types"
 
 	auctiontypes "github.com/comdex-official/comdex/x/auction/types"
+	collectortypes "github.com/comdex-official/comdex/x/collector/types"
 	auctionsV2types "github.com/comdex-official/comdex/x/auctionsV2/types"
 	liqV2types "github.com/comdex-official/comdex/x/liquidationsV2/types"
 
@@ -33,6 +35,8 @@ type c10Mon struct {
 	disc   map[string]*big.Int
 	premV2 sdk.Dec
 	discV2 sdk.Dec
+	// collectorOut: coins that left the fee collector account in the current event, per denom
+	collectorOut map[string]*big.Int
 }
 
 func newC10Mon(u *cdpU, rec *ev.Rec) *c10Mon {
@@ -76,6 +80,12 @@ func accountedV1(s *cdpSnap) map[string]*big.Int {
 		}
 		out[d].Add(out[d], x)
 	}
+	// the lot of a live generation-2 surplus auction is parked in this account from activation to close
+	for _, a := range s.AucV2 {
+		if lv, ok := s.LockedV2[a.LockedVaultId]; ok && !a.AuctionType && lv.InitiatorType == "surplus" {
+			add(a.CollateralToken.Denom, a.CollateralToken.Amount.BigInt())
+		}
+	}
 	for _, a := range s.DutchV1 {
 		add(a.OutflowTokenCurrentAmount.Denom, a.OutflowTokenCurrentAmount.Amount.BigInt())
 		add(a.InflowTokenCurrentAmount.Denom, a.InflowTokenCurrentAmount.Amount.BigInt())
@@ -110,7 +120,12 @@ func (m *c10Mon) custody(mod string, acc map[string]*big.Int, fees map[string]*b
 			if bigSub(disc, old).Sign() < 0 {
 				dir = "custody-short-of-records"
 			}
-			m.rec.Violate(fmt.Sprintf("C10/custody/%s/%s/%s%s", mod, dir, opTag(e), ctx), fmt.Sprintf("custody of %s minus what live auctions, standing bids, limit-bid deposits and booked fees account for changed %s -> %s (%s)", mod, old, disc, d),
+			lab := fmt.Sprintf("C10/custody/%s/%s/%s%s", mod, dir, opTag(e), ctx)
+			if mod == auctiontypes.ModuleName && e.Kind == "block" && m.collectorOut != nil && m.collectorOut[d] != nil && bigSub(disc, old).Cmp(m.collectorOut[d]) == 0 && !strings.Contains(ctx, "surplus-auction-opened-v2") {
+				// exactly what left the fee collector in this block arrived, unrecorded, in the generation-1 auction account
+				lab = "C10/custody/auctionV1/v2-surplus-activation-fails-after-moving-the-lot"
+			}
+			m.rec.Violate(lab, fmt.Sprintf("custody of %s minus what live auctions, standing bids, limit-bid deposits and booked fees account for changed %s -> %s (%s)", mod, old, disc, d),
 				map[string]interface{}{"event": e.String(), "denom": d, "custody": bal.String(), "accounted": a.String(), "booked_fees": f.String(), "unsolicited": un.String()})
 		}
 		m.disc[key] = disc
@@ -146,6 +161,12 @@ func (m *c10Mon) Observe(pre, post *cdpSnap, e *cdpEvent) {
 					}
 				}
 			}
+		}
+	}
+	m.collectorOut = map[string]*big.Int{}
+	for _, d := range cdpDenoms {
+		if out := bigSub(pre.bal(modLabel(collectortypes.ModuleName), d), post.bal(modLabel(collectortypes.ModuleName), d)); out.Sign() > 0 {
+			m.collectorOut[d] = out
 		}
 	}
 	// ---- (a) nothing unaccounted stays in auction custody
@@ -197,9 +218,8 @@ func (m *c10Mon) Observe(pre, post *cdpSnap, e *cdpEvent) {
 				recv := bigSub(post.bal(e.Signer.Name, cd), pre.bal(e.Signer.Name, cd))
 				// owner == bidder: the owner's remainder also lands on the bidder; take the recorded bid in that case
 				if e.Signer.Addr.String() == a.VaultOwner.String() {
-					if _, closed := post.DutchV1[x.AuctionId]; !closed {
-						recv = bigSub(recv, bigSub(a.OutflowTokenCurrentAmount.Amount.BigInt(), bigSub(a.OutflowTokenCurrentAmount.Amount.BigInt(), recv)))
-						recv = nil
+					if _, open := post.DutchV1[x.AuctionId]; !open {
+						recv = nil // the owner's remainder lands on the same account: not separable
 					}
 				}
 				m.bidLaws(awaitKey{1, x.AuctionId}, paid, recv, new(big.Int), decRat(a.OutflowTokenCurrentPrice), decRat(a.InflowTokenCurrentPrice), u.byID[a.AssetOutId], u.byID[a.AssetInId], e, "gen1")
@@ -211,9 +231,14 @@ func (m *c10Mon) Observe(pre, post *cdpSnap, e *cdpEvent) {
 				cd, dd := a.CollateralToken.Denom, a.DebtToken.Denom
 				paid := bigSub(pre.bal(e.Signer.Name, dd), post.bal(e.Signer.Name, dd))
 				recv := bigSub(post.bal(e.Signer.Name, cd), pre.bal(e.Signer.Name, cd))
-				if e.Signer.Addr.String() == lv.Owner {
-					if _, open := post.AucV2[x.AuctionId]; !open {
+				if _, open := post.AucV2[x.AuctionId]; !open {
+					if e.Signer.Addr.String() == lv.Owner {
 						recv = nil // the owner's remainder lands on the same account: not separable
+					}
+					if e.Signer.Addr.String() == lv.InternalKeeperAddress || e.Signer.Addr.String() == lv.ExternalKeeperAddress {
+						// the keeper incentive / initiator proceeds land on the bidder's account: payment not separable
+						m.rec.Count("bids_by_keeper_not_price_checked", 1)
+						break
 					}
 				}
 				// the debt coin buys at the higher of the posted debt price and the oracle price in force ($1 for CMST-flagged debt)
@@ -320,8 +345,10 @@ func (m *c10Mon) bidLaws(k awaitKey, paid, recv, bonus *big.Int, collPrice, debt
 	if recv == nil || collPrice.Sign() <= 0 {
 		return
 	}
-	// received <= (paid + bonus) * debtPrice/debtDec / collPrice * collDec + 1
-	v := new(big.Rat).SetFrac(bigAdd(paid, bonus), debt.Dec)
+	// received <= (paid + 1 + bonus) * debtPrice/debtDec / collPrice * collDec + 1
+	// ("up to one smallest unit of rounding": the payment is truncated to whole debt units and
+	// the collateral to whole collateral units, so one unit of each coin is granted)
+	v := new(big.Rat).SetFrac(bigAdd(bigAdd(paid, big.NewInt(1)), bonus), debt.Dec)
 	v.Mul(v, debtPrice)
 	v.Quo(v, collPrice)
 	v.Mul(v, new(big.Rat).SetInt(coll.Dec))
